@@ -108,6 +108,15 @@ def run(chk, tier):
                 chk.ok("R19.7", "CelValue::%s serialized" % n_)
             else:
                 chk.bad("R19.7", "CelValue::%s serialized" % n_, "CelValue::%s can be a folded constant / instruction operand but is not part of the serialized form" % n_, cv[0]["file"])
+    # R19.9 the budget of R19.8 assumes ONE nesting limit for the whole source text
+    chk.rule("R19.9", "the nesting limit bounds the whole program: a parser created while parsing (format-string segments) continues its creator's nesting count, "
+                      "so the depth of nested code blocks - and with it the depth of the JSON document - stays under the budget of R19.8")
+    import common as _cm
+    gp_ = [b_.path for b_ in F.bodies.values() if b_.pkg == "rscel" and b_.path.endswith("CelCompiler::<'l>::enter_nested")]
+    if len(gp_) != 1:
+        raise lib.MissingAnchor("enter_nested")
+    _cm.parser_nesting_inherited(chk, F, "R19.9", gp_[0], "code blocks nested through that construct are not counted, so `string(`x15 around `f'{string(`x15 ..}'` compiles to 31..59 nested "
+                                                         "blocks = 129..241 JSON levels: the program is written to JSON but cannot be read back (serde_json's recursion limit is 128)")
     # R19.8 JSON nesting budget
     chk.rule("R19.8", "JSON nesting budget: envelope + (parser nesting limit - 1) x (JSON levels per nested code block) + deepest constant <= 127, the deepest document serde_json reads back "
                       "(its recursion limit is 128): a program the compiler accepts can always be read again")
